@@ -710,7 +710,7 @@ func runRobust(nshards int) {
 		deathsBy map[string]int
 	}
 	results := make([]res, nshards)
-	wall := time.Duration(lib.Pick(15, 60)) * time.Minute
+	wall := time.Duration(lib.Pick(30, 150)) * time.Minute // safety net only: a child needs well under a minute (quick) / 10 minutes (thorough) of CPU
 	lib.Parallel(nshards, nshards, func(s int) {
 		outf := filepath.Join(scratchDir, fmt.Sprintf("robust-%d.out", s))
 		inf := filepath.Join(scratchDir, fmt.Sprintf("robust-%d.input", s))
